@@ -108,6 +108,11 @@ func (n *Node) IsSynced() bool  { return true }
 func (n *Node) SubmitValidatorRegistrations(_ context.Context, regs []*consensusapi.VersionedSignedValidatorRegistration) error {
 	n.mu.Lock()
 	defer n.mu.Unlock()
+	for _, r := range regs {
+		if r == nil {
+			return errors.New("POST failed with status 400: null entry in the request body")
+		}
+	}
 	n.Regs = append(n.Regs, regs)
 	if n.Fail {
 		return n.failure()
@@ -118,6 +123,11 @@ func (n *Node) SubmitValidatorRegistrations(_ context.Context, regs []*consensus
 func (n *Node) SubmitProposalPreparations(_ context.Context, preps []*apiv1.ProposalPreparation) error {
 	n.mu.Lock()
 	defer n.mu.Unlock()
+	for _, p := range preps {
+		if p == nil {
+			return errors.New("POST failed with status 400: null entry in the request body") // what a node answers to [..., null, ...]
+		}
+	}
 	n.Preps = append(n.Preps, preps)
 	if n.Fail {
 		return n.failure()
